@@ -234,6 +234,17 @@ def probe():
     return cluster("probe_stop_on_decide", n, inst, "attester", "inc", r, start=start, prop=list(start), lat=lat, horizon=12000)
 
 
+def probe_inc():
+    """Finding C04-inc-timer-late-leader-desync on the real components: n=7, increasing timer, one member never starts, two
+    members start at 0 and the other four 253-753 ms later, 251 ms on every link: the two early members stay one round
+    ahead of the four for ever, nobody decides."""
+    n, inst = 7, 1
+    start = [0, 0, 753, -1, 503, 503, 253]
+    lat = [[0 if i == j else 251 for j in range(n)] for i in range(n)]
+    r = vlib.rng(0, "conscluster/probe_inc")
+    return cluster("probe_inc_desync", n, inst, "attester", "inc", r, start=start, prop=list(start), lat=lat, horizon=30000)
+
+
 def schedules(tier, seed):
     thorough = tier == "thorough"
     r = vlib.rng(seed, "conscluster")
@@ -352,7 +363,9 @@ def stage(o, tier, seed, node_traces=True, probe_finding=True):
     from concurrent.futures import ThreadPoolExecutor
     t0 = time.time()
     sch = schedules(tier, seed)
-    batch = sch + ([probe()] if probe_finding else [])
+    probes = [(FINDING, probe(), cfg_of_dev, "fault-free n=6 run, one member never decides"),
+              (FINDING_INC, probe_inc(), cfg_of_dev_inc, "n=7, inc timer, one member absent, 251 ms links: nobody decides in 30 s")] if probe_finding else []
+    batch = sch + [p[1] for p in probes]
     traces, sids, wall = vlib.run_schedules(o.pid, PKG, "TestExec", batch, tag="cluster", timeout=600)
     if len(traces) != len(batch) or sids != list(range(len(batch))):
         raise vlib.Infra("executor returned %d traces for %d schedules" % (len(traces), len(batch)))
@@ -364,8 +377,9 @@ def stage(o, tier, seed, node_traces=True, probe_finding=True):
         conscluster_node.validate(side, main_tr, sch)
 
     def probing():
-        return (vlib.validate_traces(o.pid, FAMILY, "QBFTClusterTrace", cfg_of, probe_tr, timeout=600),
-                vlib.validate_traces(o.pid, FAMILY, "QBFTClusterTrace", cfg_of_dev, probe_tr, timeout=600))
+        return [(vlib.validate_traces(o.pid, FAMILY, "QBFTClusterTrace", cfg_of, [probe_tr[k]], timeout=600),
+                 vlib.validate_traces(o.pid, FAMILY, "QBFTClusterTrace", probes[k][2], [probe_tr[k]], timeout=600))
+                for k in range(len(probes))]
 
     with ThreadPoolExecutor(max_workers=3) as ex:
         fm = ex.submit(members) if node_traces else None
@@ -383,18 +397,19 @@ def stage(o, tier, seed, node_traces=True, probe_finding=True):
             _account(o, sch, main_tr, v, "cluster")
             vlib.binding_selftest(o, FAMILY, "QBFTClusterTrace", cfg_of, main_tr, mutators())
         if fp:
-            vp, vd = fp.result()
-            _account(o, batch[len(sch):], probe_tr, vp, "cluster_probe")
-            if not vp.rejected:
-                log("note: the %s probe no longer reproduces (the finding may have been repaired)" % FINDING)
-            elif not vd.rejected:
-                if not any(k == FINDING for k, _ in o.known):
-                    _, pos, reason = vp.rejected[0]
-                    o.known.append((FINDING, "%s at event %d %s (probe: fault-free n=6 run, one member never decides)"
-                                    % (reason, pos, json.dumps(probe_tr[0][pos] if pos < len(probe_tr[0]) else None)[:200])))
-            else:   # rejected for another reason than the finding: standard treatment
-                vlib.conformance(o, FAMILY, "QBFTClusterTrace", cfg_of, PKG, batch[len(sch):], tag="cluster_probe",
-                                 exec_timeout=600, tv_timeout=600, dev_cfgs=[(FINDING, cfg_of_dev), (FINDING_INC, cfg_of_dev_inc)])
+            for k, (vp, vd) in enumerate(fp.result()):
+                fid, psched, _, what = probes[k]
+                _account(o, [psched], [probe_tr[k]], vp, "cluster_probe")
+                if not vp.rejected:
+                    log("note: the %s probe no longer reproduces (the finding may have been repaired)" % fid)
+                elif not vd.rejected:
+                    if not any(f == fid for f, _ in o.known):
+                        _, pos, reason = vp.rejected[0]
+                        o.known.append((fid, "%s at event %d %s (probe: %s)"
+                                        % (reason, pos, json.dumps(probe_tr[k][pos] if pos < len(probe_tr[k]) else None)[:200], what)))
+                else:   # rejected for another reason than the finding: standard treatment
+                    vlib.conformance(o, FAMILY, "QBFTClusterTrace", cfg_of, PKG, [psched], tag="cluster_probe",
+                                     exec_timeout=600, tv_timeout=600, dev_cfgs=[(FINDING, cfg_of_dev), (FINDING_INC, cfg_of_dev_inc)])
         if fm:
             try:
                 fm.result()     # raises what the thread raised (vlib.Infra)
